@@ -129,6 +129,10 @@ func safeCheck[C any](p *prop[C], c C, rec *evid.Recorder) *Fail {
 func guardedCheck[C any](p *prop[C], c C, rec *evid.Recorder) (f *Fail) {
 	defer func() {
 		if r := recover(); r != nil {
+			if iv, ok := r.(invariantViolation); ok {
+				f = &Fail{Msg: iv.msg, Tags: []string{"compile-invariant"}}
+				return
+			}
 			st := string(debug.Stack())
 			// a panic with xjs frames between the harness and the panic site is
 			// the library's; anything else is a harness fault (exit 2)
@@ -169,6 +173,7 @@ func suppressed(known []knownEntry, f *Fail) (string, bool) {
 }
 
 func run[C any](t *testing.T, p *prop[C]) {
+	otherUsers()
 	rec := evid.New(p.ID)
 	defer func() {
 		if err := rec.Write(os.Getenv("VERIF_OUT")); err != nil {
